@@ -198,6 +198,11 @@ def run_property(prop: str, tier: str = "quick", seed: int = 0) -> int:
             crash = True
         out["name"] = b.name
         out["wall_s"] = round(time.time() - tb, 2)
+        if out.get("engine_check") and out.get("failures"):
+            # a disagreement between the engine and CPython is a checker defect, never a violation of the repository
+            print(f"ENGINE-ERROR {b.name}: " + json.dumps(out["failures"][0], default=str)[:400])
+            crash = True
+            out["failures"] = []
         for i, f in enumerate(out.get("failures", [])):
             if f.get("known"):
                 known_hits.append({"finding": f["known"], "obligation": f.get("what", b.name)})
